@@ -434,7 +434,7 @@ func (e *kvElection) attemptPriorityTakeover(payloadBytes []byte) error {
 
 	var currentPayload leadershipPayload
 	if err := json.Unmarshal(entry.Value(), &currentPayload); err != nil {
-		return e.attemptAcquire()
+		return fmt.Errorf("failed to parse current leader payload: %w", err)
 	}
 
 	if e.cfg.Priority <= currentPayload.Priority {
